@@ -79,6 +79,39 @@ func isSortCallOn(info *types.Info, n ast.Node, o types.Object) bool {
 	return found
 }
 
+// c16Builders: the request builders, identified by their signature — a function of the client
+// package that takes the idempotency-key generator and returns (request, roll-back closure,
+// error). The signature survives refactorings of the body; builders stay functions in the
+// normalised view so that their callers are judged as callers.
+func c16Builders(c *Ctx) []*FuncInfo {
+	p := c.P
+	var out []*FuncInfo
+	for _, fn := range p.FuncsInPkg(clientPkg) {
+		sig := fn.Obj.Type().(*types.Signature)
+		if sig.Results().Len() != 3 {
+			continue
+		}
+		if _, isFn := sig.Results().At(1).Type().Underlying().(*types.Signature); !isFn {
+			continue
+		}
+		if !types.Identical(sig.Results().At(2).Type(), types.Universe.Lookup("error").Type()) {
+			continue
+		}
+		hasGen := false
+		for i := 0; i < sig.Params().Len(); i++ {
+			if typeIs(sig.Params().At(i).Type(), modPath+"/"+clientPkg, "IdempotentKeyGen") {
+				hasGen = true
+			}
+		}
+		if !hasGen {
+			continue
+		}
+		p.Anchor(fn)
+		out = append(out, fn)
+	}
+	return out
+}
+
 func c16R1(c *Ctx) {
 	p := c.P
 	c.Rule("C16.R1", "the hashed request is independent of map iteration order: in every function that calls md5Hash(x), a slice built by appending while ranging over a map reaches x only after a sort (otherwise a retry with the same parameters hashes differently and does not find its token)")
@@ -87,9 +120,16 @@ func c16R1(c *Ctx) {
 		c.Unres("C16.R1", "md5Hash", "not found")
 		return
 	}
-	sites := p.CallsTo(nil, md5.Obj)
-	for _, cs := range sites {
-		p.Anchor(cs.Fn) // request builders are identified by what they do; they stay functions in the normalised view
+	bl := c16Builders(c)
+	sites := p.CallsTo(bl, md5.Obj)
+	for _, cs := range p.CallsTo(nil, md5.Obj) {
+		isB := false
+		for _, b := range bl {
+			if b == cs.Fn {
+				isB = true
+			}
+		}
+		c.Check(isB, "C16.R1", "md5Hash in "+cs.Fn.Key()+" belongs to a request builder", p.Pos(cs.Call), cs.Fn.Key(), "hashing happens in a function (…IdempotentKeyGen…) (request, func(), error)", "hash taken outside a request builder")
 	}
 	c.Floor("C16.R1", "md5Hash call sites (request builders)", 5, len(sites))
 	for _, cs := range sites {
@@ -179,18 +219,41 @@ func c16R2(c *Ctx) {
 		return
 	}
 	builders := map[*FuncInfo]bool{}
-	for _, cs := range p.CallsTo(nil, md5.Obj) {
+	bl := c16Builders(c)
+	for _, b := range bl {
+		builders[b] = true
+	}
+	for _, cs := range p.CallsTo(bl, md5.Obj) {
 		fn := cs.Fn
-		builders[fn] = true
-		p.Anchor(fn)
 		info := fn.Info()
-		hashed := identObj(info, cs.Call.Args[0])
+		// root: the variable an identifier is a plain alias of (x := y, var x T = y)
+		root := func(x ast.Expr) types.Object {
+			o := identObj(info, x)
+			for depth := 0; depth < 4 && o != nil; depth++ {
+				ds := varDefs(fn, o)
+				if len(ds) != 1 || ds[0].rhs == nil {
+					break
+				}
+				next := identObj(info, ds[0].rhs)
+				if next == nil {
+					break
+				}
+				o = next
+			}
+			return o
+		}
+		hashed := root(cs.Call.Args[0])
 		_, lhs := assignedFromCall(fn, cs.Call)
 		if hashed == nil || len(lhs) != 1 || lhs[0] == nil {
 			c.Undec("C16.R2", fn.Key()+": hash bound", p.Pos(cs.Call), fn.Key(), "", "argsHash := md5Hash(req) not recognised")
 			continue
 		}
 		hashObj := lhs[0]
+		// tokenOf: the expression is (a variable filled once with) GenerateKey(hash of this request)
+		tokenOf := func(x ast.Expr) bool {
+			call, ok := ast.Unparen(derefLoose(fn, x)).(*ast.CallExpr)
+			return ok && calleeName(info, call) == "IdempotentKeyGen.GenerateKey" && len(call.Args) == 1 && root(call.Args[0]) == hashObj
+		}
 		q := NewPathQuery(p, fn, nil)
 		// stores to hashed.ClientToken
 		n := 0
@@ -200,17 +263,14 @@ func c16R2(c *Ctx) {
 				return true
 			}
 			sel, ok := ast.Unparen(as.Lhs[0]).(*ast.SelectorExpr)
-			if !ok || sel.Sel.Name != "ClientToken" || identObj(info, sel.X) != hashed {
+			if !ok || sel.Sel.Name != "ClientToken" || root(sel.X) != hashed {
 				return true
 			}
 			n++
 			w := q.Escapes(nil, isExactly(as), isExactly(cs.Call), nil)
 			c.Check(w == nil, "C16.R2", fn.Key()+": token set only after the request was hashed", p.Pos(as), fn.Key(), "must-pass: md5Hash(req) → req.ClientToken = …", "path: "+p.describePath(w))
 			// no other field of the request is modified after the hash
-			okTok := false
-			if call, ok := ast.Unparen(as.Rhs[0]).(*ast.CallExpr); ok && calleeName(info, call) == "IdempotentKeyGen.GenerateKey" && len(call.Args) == 1 && identObj(info, call.Args[0]) == hashObj {
-				okTok = true
-			}
+			okTok := tokenOf(as.Rhs[0])
 			c.Check(okTok, "C16.R2", fn.Key()+": token = GenerateKey(hash of this request)", p.Pos(as), fn.Key(), "req.ClientToken = gen.GenerateKey(argsHash)", exprString(as.Rhs[0]))
 			return true
 		})
@@ -223,7 +283,7 @@ func c16R2(c *Ctx) {
 				return true
 			}
 			for _, l := range as.Lhs {
-				if sel, ok := ast.Unparen(l).(*ast.SelectorExpr); ok && identObj(info, sel.X) == hashed && sel.Sel.Name != "ClientToken" {
+				if sel, ok := ast.Unparen(l).(*ast.SelectorExpr); ok && root(sel.X) == hashed && sel.Sel.Name != "ClientToken" {
 					late = append(late, sel.Sel.Name+" at "+p.Pos(as))
 				}
 			}
@@ -236,14 +296,16 @@ func c16R2(c *Ctx) {
 			if len(r.Results) != 3 {
 				continue
 			}
-			lit, ok := ast.Unparen(r.Results[1]).(*ast.FuncLit)
+			lit, ok := ast.Unparen(derefLoose(fn, r.Results[1])).(*ast.FuncLit)
 			if !ok {
 				continue
 			}
 			ast.Inspect(lit.Body, func(k ast.Node) bool {
 				if call, ok := k.(*ast.CallExpr); ok && calleeName(info, call) == "IdempotentKeyGen.PutBack" && len(call.Args) == 2 {
-					if identObj(info, call.Args[0]) == hashObj {
-						if sel, ok := ast.Unparen(call.Args[1]).(*ast.SelectorExpr); ok && sel.Sel.Name == "ClientToken" && identObj(info, sel.X) == hashed {
+					if root(call.Args[0]) == hashObj {
+						if sel, ok := ast.Unparen(call.Args[1]).(*ast.SelectorExpr); ok && sel.Sel.Name == "ClientToken" && root(sel.X) == hashed {
+							okPB = true
+						} else if tokenOf(call.Args[1]) {
 							okPB = true
 						}
 					}
@@ -286,8 +348,7 @@ func c16R4(c *Ctx) {
 		return
 	}
 	n := 0
-	for _, bs := range p.CallsTo(nil, md5.Obj) {
-		builder := bs.Fn
+	for _, builder := range c16Builders(c) {
 		for _, cs := range p.CallsTo(nil, builder.Obj) {
 			fn := cs.Fn
 			info := fn.Info()
